@@ -69,7 +69,7 @@ VersionOwed(S) == \E i \in 1..Len(S.owed) : Op(S.owed[i].p) = VERSION_IND /\ "rs
 \* ---- the table: set of allowed reaction kinds ---------------------------------------------------
 \*   "none" no PDU     "unk" LL_UNKNOWN_RSP(opcode)    "unkany" LL_UNKNOWN_RSP(anything)
 \*   "rsp" the specified response PDU (Fits checks the payload)    "rej" LL_REJECT_IND / LL_REJECT_EXT_IND(opcode, *)
-\*   "close" the connection ends (MayClose lists the reasons)
+\*   "close" the connection ends (closeOk collects the admissible reasons)
 AllowedWF(S, p) ==              \* p has the nominal length of its opcode
     LET op == Op(p) IN
     CASE op = UNKNOWN_RSP -> {"none"}
@@ -340,6 +340,12 @@ NeverAnswerRejects ==
 UnknownGetsUnknownRsp ==
     \A i \in 1..Len(st.owed) : LET e == st.owed[i] IN
         (Len(e.p) > 0 /\ NomLen(Op(e.p)) = 0) => (e.must /\ e.kinds \ {"close"} = {"unk"})
+\* a request with a wrong length can only be answered with LL_UNKNOWN_RSP, and must be
+MalformedGetsUnknownRsp ==
+    \A i \in 1..Len(st.owed) : LET e == st.owed[i]  op == Op(e.p) IN
+        (Len(e.p) > 0 /\ NomLen(op) # 0 /\ Len(e.p) # NomLen(op)
+            /\ op \notin {UNKNOWN_RSP, REJECT_IND, REJECT_EXT_IND, PAUSE_ENC_RSP} \cup UnsolicitedOps)
+        => (e.must /\ e.kinds \ {"close"} = {"unk"})
 \* the link ends with "LL response timeout" only while an own procedure is unanswered long enough
 TimeoutOnlyWhenPending == [][(st.alive /\ ~st'.alive /\ st.closeOk = {} /\ ~st.sawTimeout) => \E q \in st.pend : Expired(st, q, st.now)]_vars
 VersionOnce == st.verTx <= 1
